@@ -400,7 +400,11 @@ def inject_fn(em, module, vc, header, body, is_trait_impl, struct_name):
                 RECORD_LOOPS[key] = fp
             elif LOOP_HEADERS.get(key) is not None and LOOP_HEADERS[key] != fp:
                 raise ExtractError('lost anchor: loop %s now reads `%s` (contract written for `%s`)' % (key, fp, LOOP_HEADERS[key]))
-            inserts.append((b, ('LOOP', k, lt.replace('@I@', lvn))))
+            um = re.search(r'\.\.=?\s*(.+?)\s*$', body[hs:b].strip(), re.S)
+            inserts.append((b, ('LOOP', k, lt.replace('@I@', lvn).replace('@END@', '(%s)' % um.group(1) if um else '@END@'))))
+        bl = vc.get('beforeloop %s %d' % (name, k))
+        if bl:
+            inserts.append((body.rfind('\n', 0, hs) + 1, ('TEXT', -1, bl)))
         le = vc.get('loopend %s %d' % (name, k))
         if le:
             inserts.append((c, ('LOOPEND', k, le.replace('@I@', lvn))))
